@@ -79,7 +79,7 @@ def check(run, M, tier):
         if tgt[0] == "ext" and tgt[1] in ("numpy.random.get_state", "numpy.random.set_state"):
             args = [vn._as_term(vn.ev(a, st)) for a in call.args]
             if tgt[1].endswith("get_state"):
-                tok = T.sym("RNGSTATE%d" % len([e for e in st.events if e[0] == "get_state"]), real=True)
+                tok = T.app("call:numpy.random.get_state", T.sym("RNGSTATE%d" % len([e for e in st.events if e[0] == "get_state"]), real=True), real=True)
                 st.events.append(("get_state", tok, call))
                 return tok
             st.events.append(("set_state", args[0] if args else None, call))
@@ -172,7 +172,10 @@ def check(run, M, tier):
                             cmpn = r_
                         elif isinstance(r_, ast.Name) and r_.id == mname:
                             cmpn = l_
-                    if isinstance(cmpn, ast.Compare) and len(cmpn.ops) == 1 and len(cg) == 1:
+                    if isinstance(cmpn, ast.Name):
+                        from ..model import resolve_temp
+                        cmpn = resolve_temp(f.node, cmpn)   # `inside = r < 1` hoisted into a temporary
+                    if isinstance(cmpn, ast.Compare) and len(cmpn.ops) == 1 and len(cg) >= 1:
                         # `R < 1` in any spelling (`1 > R`): the comparison normal form is pos(1 - R)
                         ct = vg._as_term(vg.ev(cmpn, State(cg[0].env)))
                         ca = ct.single_atom() if isinstance(ct, T.Poly) else None
